@@ -14,8 +14,11 @@ pub enum StdStream { Tcp(u8), Unix(u8), Invalid }
 // src/conn.rs LdapConnSettings, the fields this prefix touches (tls-native build)
 pub struct LdapConnSettings { pub conn_timeout: Option<Duration>, pub starttls: bool, pub no_tls_verify: bool, pub std_stream: Option<StdStream> }
 impl LdapConnSettings {
-    // `starttls()` has one definition per cfg (TLS compiled in or not); the TLS build's is `self.starttls`
-    pub fn starttls(&self) -> (r: bool) ensures r == self.starttls { self.starttls }
+//@lift name=LdapConnSettings::starttls file=src/conn.rs impl="impl\s+LdapConnSettings\s*\{" fn=starttls nth=1
+//@ ret r
+//@ spec
+    ensures r == self.starttls,   // (nth=1: the definition compiled when TLS support is in; the other cfg returns false)
+//@end
 //@lift name=LdapConnSettings::set_starttls file=src/conn.rs impl="impl\s+LdapConnSettings\s*\{" fn=set_starttls
 //@ sub "fn set_starttls(mut self, starttls: bool) -> Self" => "fn set_starttls(self, starttls: bool) -> Self"
 //@ sub "self.starttls = starttls;\n        self" => "let mut verif_self = self; verif_self.starttls = starttls;\n        verif_self"
@@ -119,6 +122,59 @@ pub fn verif_str_eq(a: &str, b: &str) -> (r: bool) ensures r == (a == b) { unimp
                 Some(t) => if timed_out(t, *url, s2) { r is Err } else { r == tcp_outcome(*url, s2) },
                 None => r == tcp_outcome(*url, s2),
             } }), //# C18.connection_timeout_bounds_the_whole_tcp_establishment
+//@end
+
+// ---- new_unix (cfg(unix)): the ldapi path -- which socket path is connected to, and the refusals before any connect
+pub enum ConnType { Unix(UnixStream), Tcp(u8) }
+pub struct UnixStream { pub path: Ghost<Seq<char>>, pub from_std: bool }
+pub struct UnixConnFut { pub path: Ghost<Seq<char>> }
+pub uninterp spec fn unix_connect_ok(path: Seq<char>) -> bool;
+impl UnixConnFut {
+    #[verifier::external_body]
+    pub fn verif_await(self) -> (r: Result<UnixStream>)
+        ensures r is Ok <==> unix_connect_ok(self.path@), r matches Ok(st) ==> st.path@ == self.path@ && !st.from_std
+    { unimplemented!() }
+}
+impl UnixStream {
+    #[verifier::external_body] pub fn connect(p: &str) -> (f: UnixConnFut) ensures f.path@ == p@ { unimplemented!() }
+    #[verifier::external_body] pub fn from_std(s: StdUnix) -> (r: Result<UnixStream>) ensures r matches Ok(st) ==> st.from_std { unimplemented!() }
+}
+pub struct StdUnix { pub g: u8 }
+impl StdUnix { #[verifier::external_body] pub fn set_nonblocking(&self, b: bool) -> (r: Result<()>) { unimplemented!() } }
+pub enum StdStream2 { Tcp(u8), Unix(StdUnix), Invalid }
+pub struct Settings2 { pub std_stream: Option<StdStream2> }
+// idioms: `path.contains(':')`, `percent_decode(path.as_bytes()).decode_utf8_lossy()` (RFC 3986 percent-decoding)
+pub uninterp spec fn has_colon(s: &str) -> bool;
+pub uninterp spec fn percent_decoded(s: &str) -> Seq<char>;
+#[verifier::external_body] pub fn verif_contains_colon(s: &str) -> (r: bool) ensures r == has_colon(s) { unimplemented!() }
+#[verifier::external_body] pub fn verif_percent_decode_lossy(s: &str) -> (r: String) ensures r@ == percent_decoded(s) { unimplemented!() }
+pub struct Conn { pub ct: ConnType }
+impl Conn { #[verifier::external_body] pub fn conn_pair(ct: ConnType) -> (r: Conn) ensures r.ct == ct { unimplemented!() } }
+pub enum LdapError2 { EmptyUnixPath, PortInUnixPath, MismatchedStreamType, Io(u8) }
+impl vstd::std_specs::convert::FromSpecImpl<LdapError> for LdapError2 { open spec fn obeys_from_spec() -> bool { false } open spec fn from_spec(e: LdapError) -> LdapError2 { LdapError2::Io(0) } }
+impl From<LdapError> for LdapError2 { #[verifier::external_body] fn from(e: LdapError) -> (r: LdapError2) { unimplemented!() } }
+
+//@lift name=new_unix file=src/conn.rs fn=new_unix nth=1
+//@ sub "fn new_unix(url: &Url, settings: LdapConnSettings) -> Result<(Self, Ldap)>" => "fn new_unix(url: &Url, settings: Settings2) -> core::result::Result<Conn, LdapError2>"
+//@ sub "StdStream::" => "StdStream2::" count=*
+//@ sub "LdapError::" => "LdapError2::" count=*
+//@ sub "path.is_empty()" => "verif_is_empty(path)"
+//@ sub "path.contains(':')" => "verif_contains_colon(path)"
+//@ sub "let dec_path = percent_decode(path.as_bytes()).decode_utf8_lossy();" => "let dec_path = verif_percent_decode_lossy(path);"
+//@ sub "dec_path.as_ref()" => "dec_path.as_str()" count=*
+//@ sub "Self::conn_pair(" => "Conn::conn_pair("
+//@ ret r
+//@ spec
+    ensures
+        settings.std_stream is None ==> ({
+            let path: &str = match url.host_of() { Some(h) => h, None => "" };
+            if str_empty(path) { r matches Err(LdapError2::EmptyUnixPath) } //# C18.empty_ldapi_path_is_an_error
+            else if has_colon(path) { r matches Err(LdapError2::PortInUnixPath) } //# C18.port_bearing_ldapi_path_is_an_error
+            else if unix_connect_ok(percent_decoded(path)) { r matches Ok(c) && (c.ct matches ConnType::Unix(st) && st.path@ == percent_decoded(path)) } //# C18.ldapi_connects_to_the_percent_decoded_socket_path
+            else { r is Err } }),
+        // a pre-opened stream is used only if its type matches the scheme
+        (settings.std_stream matches Some(StdStream2::Unix(_))) ==> (r matches Ok(c) ==> (c.ct matches ConnType::Unix(st) && st.from_std)),
+        (settings.std_stream matches Some(StdStream2::Tcp(_))) || (settings.std_stream matches Some(StdStream2::Invalid)) ==> r matches Err(LdapError2::MismatchedStreamType), //# C18.mismatched_pre_opened_stream_is_an_error
 //@end
 } // verus!
 fn main() {}
